@@ -25,26 +25,32 @@ type LinkedListQueue[T any] struct {
 }
 
 func (p *LinkedListQueue[T]) Push(v T) bool {
+	verifGate("push", p)
 	p.cond.L.Lock()
 	if p.closed {
 		panic("push on closed queue")
 	}
 	p.queue.PushBack(v)
+	verifEmit("push", p, v)
 	p.cond.Signal()
 	p.cond.L.Unlock()
 	return true
 }
 
 func (p *LinkedListQueue[T]) Pull() (v T, ok bool) {
+	verifGate("pull", p)
 	p.cond.L.Lock()
 	for {
 		if elem := p.queue.Front(); elem != nil {
 			v = p.queue.Remove(elem).(T)
 			ok = true
+			verifEmit("pulled", p, v)
 			break
 		} else if p.closed {
+			verifEmit("closedExit", p, nil)
 			break
 		}
+		verifEmit("wait", p, nil)
 		p.cond.Wait()
 	}
 	p.cond.L.Unlock()
@@ -52,8 +58,10 @@ func (p *LinkedListQueue[T]) Pull() (v T, ok bool) {
 }
 
 func (p *LinkedListQueue[T]) Close() {
+	verifGate("close", p)
 	p.cond.L.Lock()
 	p.closed = true
+	verifEmit("close", p, nil)
 	p.cond.Broadcast()
 	p.cond.L.Unlock()
 }
